@@ -140,6 +140,10 @@ struct Case {
     relay: RelayScript,
     msgs: [Vec<MsgSpec>; 2],
     duplex: bool,
+    /// Full duplex only: the write half runs in a task of its own (spawned)
+    /// instead of being joined with the reader inside one task, so the two
+    /// halves poll the stream with different wakers.
+    duplex_tasks: bool,
     /// send(): flush after each message; else feed() all and flush once.
     flush_each: bool,
     /// 0 = client starts the close handshake, 1 = server.
@@ -186,7 +190,7 @@ impl Case {
             "relay": {"class": self.relay.class, "cap": self.relay.cap, "hs_chunk": self.relay.hs_chunk, "selftest_blackhole": self.relay.blackhole_after,
                       "steps": [steps(&self.relay.steps[0]), steps(&self.relay.steps[1])]},
             "msgs": [msgs(&self.msgs[0]), msgs(&self.msgs[1])],
-            "duplex": self.duplex, "flush_each": self.flush_each, "closer": self.closer,
+            "duplex": self.duplex, "duplex_tasks": self.duplex_tasks, "flush_each": self.flush_each, "closer": self.closer,
             "wscfg": self.wscfg, "seed": self.seed, "control_raw": self.control_raw,
         })
     }
@@ -237,6 +241,7 @@ impl Case {
             },
             msgs: [msgs(&v["msgs"][0]), msgs(&v["msgs"][1])],
             duplex: v["duplex"].as_bool().unwrap_or(false),
+            duplex_tasks: v["duplex_tasks"].as_bool().unwrap_or(false),
             flush_each: v["flush_each"].as_bool().unwrap_or(true),
             closer: v["closer"].as_u64().unwrap_or(0) as usize,
             wscfg: v["wscfg"].as_u64().unwrap_or(0) as u8,
@@ -923,7 +928,29 @@ async fn peer(role: usize, sock: Socket, case: Rc<Case>, log: Shared) -> Result<
             Err(e) => return Err(("ws-handshake-error".into(), format!("server: {e}"))),
         }
     };
-    if case.duplex {
+    if case.duplex && case.duplex_tasks {
+        phase(&log, role, "duplex");
+        let (tx, mut rx) = ws.split();
+        let (wcase, wlog) = (case.clone(), log.clone());
+        // dropping the handle (failure, cancellation) cancels the writer
+        let writer = compio_runtime::spawn(async move {
+            let mut tx = tx;
+            let r = send_all(&mut tx, None, &wcase, role, &wlog).await;
+            (tx, r)
+        });
+        recv_all(&mut rx, &case, role, &log).await?;
+        let (tx, wr) = match writer.await {
+            Ok(x) => x,
+            Err(compio_runtime::JoinError::Panicked(p)) => std::panic::resume_unwind(p),
+            Err(compio_runtime::JoinError::Cancelled) => {
+                return Err(("harness".to_string(), "writer task cancelled".to_string()));
+            }
+        };
+        wr?;
+        ws = tx
+            .reunite(rx)
+            .map_err(|_| ("harness".to_string(), "reunite failed".to_string()))?;
+    } else if case.duplex {
         phase(&log, role, "duplex");
         let (mut tx, mut rx) = ws.split();
         let w = async {
@@ -1456,6 +1483,7 @@ fn gen_case(rng: &mut Rng, thorough: bool, idx: usize) -> Case {
         relay,
         msgs,
         duplex: rng.chance(1, 3),
+        duplex_tasks: rng.chance(1, 2),
         flush_each: rng.chance(2, 3),
         closer: rng.below(2),
         wscfg: *rng.pick(&[0u8, 0, 1, 2]),
@@ -1486,6 +1514,14 @@ fn size_class(case: &Case) -> &'static str {
     }
 }
 
+fn mode_str(case: &Case) -> &'static str {
+    match (case.duplex, case.duplex_tasks) {
+        (false, _) => "half",
+        (true, false) => "duplex",
+        (true, true) => "duplex-tasks",
+    }
+}
+
 fn eval_sig(case: &Case) -> String {
     let kinds: String = {
         let mut k: Vec<&str> = case.msgs.iter().flatten().map(|m| kind_name(m.kind)).collect();
@@ -1500,7 +1536,7 @@ fn eval_sig(case: &Case) -> String {
         case.link,
         case.relay.class,
         match case.sockbuf { 0 => "default", 1 => "min", _ => "small" },
-        if case.duplex { "duplex" } else { "half" },
+        mode_str(case),
         size_class(case),
         ["client", "server"][case.closer],
     )
@@ -1515,6 +1551,7 @@ fn violation_sig(case: &Case, f: &Failure) -> String {
             case.layer(),
             if case.duplex { "duplex" } else { "half" }
         );
+        // (joined and spawned halves share the signature: same root cause)
     }
     format!(
         "C15/ws/{}/{}/{}/{}/{}/relay={}",
@@ -1575,6 +1612,7 @@ fn execute(case: &Case, rep: &mut Report, watchdog: Duration) {
                     rep.floor("held: 0-byte message", case.msgs.iter().flatten().any(|m| m.len == 0 && matches!(m.kind, Kind::Text | Kind::Binary)));
                     rep.floor("held: ping answered while the peer only reads", case.msgs.iter().flatten().any(|m| m.kind == Kind::PingSync) && !case.duplex);
                     rep.floor("held: full duplex through split()", case.duplex && !trivial);
+                    rep.floor("held: full duplex, halves in separate tasks", case.duplex && case.duplex_tasks && !trivial);
                     rep.floor("held: close started by the server", case.closer == 1);
                     rep.floor("held: close started by the client", case.closer == 0);
                     rep.floor("held: relay made 1-byte reads", out.one_byte_reads > 0);
